@@ -3,7 +3,7 @@ import time, subprocess, re
 from concurrent.futures import ThreadPoolExecutor
 from vlib import *
 
-VI_SRCS = ["drive_vi.c"] + [REPO + "/" + f for f in ("ex.c", "lbuf.c", "mot.c", "sbuf.c", "ren.c", "dir.c", "syn.c", "reg.c", "led.c",
+VI_SRCS = ["drive_vi.c"] + [REPO + "/" + f for f in ("ex.c", "mot.c", "sbuf.c", "ren.c", "dir.c", "syn.c", "reg.c", "led.c",
            "uc.c", "term.c", "rset.c", "rstr.c", "regex.c", "cmd.c", "tag.c", "conf.c")]
 VI_FLAGS = ["-Wl,--wrap=read,--wrap=write,--wrap=poll,--wrap=kill,--wrap=execvp,--wrap=term_room,--wrap=term_pos,--wrap=led_print"]
 
